@@ -38,7 +38,7 @@ CLAIMS = {
         design='DESIGN.md §5 C09', technique='contract-based deductive verification (Verus)'),
     'C10': dict(
         text='Deductive proof (Verus) of fixed-offset header parsing (every component equals its documented byte range, lengths/directions/shapes rejected as documented), of header round-trip lemmas (an accepted block 1/2 is written back as read), of block extraction against a top-level scan of the block structure (a marker inside a field or tag value is not a block) and of tag re-emission.',
-        note='Trusted: prelude contracts (find/starts_with), pad/truncate format specs assumed, Verus/Z3.',
+        note='Trusted: prelude contracts (find/starts_with), pad/truncate format specs assumed, Verus/Z3. Not covered (DESIGN.md §7): block-5 tags PDE/PDM/MRF/SYS are not read by Trailer::parse at all, block-3 tags 165/433 are specified as the code reads them (fixed offsets); round trip of those tags is not claimed.',
         design='DESIGN.md §5 C10', technique='contract-based deductive verification (Verus)'),
     'C11': dict(
         text='Deductive proof (Verus), for all strings, that every date/time primitive and date-bearing field parser under contract accepts exactly the calendar-valid digit strings and yields the value given by one shared century/validity specification.',
